@@ -151,7 +151,7 @@ fn rbits_fixed<const N: usize>(cx: &mut Cx, reps: usize) {
             let st: Vec<u8> = (0..8 * N + 8).map(|_| match cx.rng.below(4) { 0 => 0xff, 1 => 0, _ => cx.rng.next() as u8 }).collect();
             let ev = |form: &str, prec: u32| Ev::new("rbits", form).i("tb", tb as i64).nu("bl", bl as u128).nu("prec", prec as u128).b("st", &st).s("ty", "fixed");
             cx.call(ev("uint.try_random_bits", tb), || { let mut s = Script::new(st.clone()); match Uint::<N>::try_random_bits(&mut Fal(&mut s), bl) { Ok(v) => O::ok().n("v", &w(&v)).i("c", s.pos as i64), Err(e) => bits_err(e) } });
-            if bl % 5 == 0 || bl > tb {
+            if bl % 5 == 0 || bl + 2 > tb {      // every form at the full width and just below it
                 cx.call(ev("uint.random_bits", tb), || { let mut s = Script::new(st.clone()); let v = Uint::<N>::random_bits(&mut Inf(&mut s), bl); O::ok().n("v", &w(&v)).i("c", s.pos as i64) });
                 cx.call(ev("int.try_random_bits", tb), || { let mut s = Script::new(st.clone()); match Int::<N>::try_random_bits(&mut Fal(&mut s), bl) { Ok(v) => O::ok().n("v", &wi(&v)).i("c", s.pos as i64), Err(e) => bits_err(e) } });
                 let prec = cx.rng.pick(&[tb, tb + 64, tb - 1, 0, tb + 1]);
